@@ -22,12 +22,15 @@ SRC_DFT = "spqlios/arithmetic/vec_znx_dft.c"
 SRC_SVP = "spqlios/arithmetic/scalar_vector_product.c"
 SRC_SMALL = "spqlios/arithmetic/znx_small.c"
 SRC_VMP = "spqlios/arithmetic/vector_matrix_product.c"
-ALL_SRCS = [SRC, SRC_VEC, SRC_AVX, SRC_VECAVX, SRC_Q120REF, SRC_Q120SIMPLE, SRC_DFT, SRC_SVP, SRC_SMALL, SRC_VMP]
+SRC_FFTVEC = "spqlios/reim/reim_fftvec_addmul_ref.c"
+ALL_SRCS = [SRC, SRC_VEC, SRC_AVX, SRC_VECAVX, SRC_Q120REF, SRC_Q120SIMPLE, SRC_DFT, SRC_SVP, SRC_SMALL, SRC_VMP, SRC_FFTVEC]
 # static helpers inlined into translated q120 functions: helper -> (source, property module of a function using it)
 Q120_HELPERS = {"accum_mul_q120_bc": "SpqProofs.Properties.SrcQ120", "accum_to_q120b": "SpqProofs.Properties.SrcQ120"}
 
 # property module holding the theorems of a function
 def module_of(fn):
+    if fn.startswith("reim_fftvec_"):
+        return "SpqProofs.Properties.SrcFftvec"
     if fn.startswith("fft64_vmp_"):
         return "SpqProofs.Properties.SrcModVmp"
     if fn.startswith("fft64_"):
@@ -55,6 +58,8 @@ def module_of(fn):
     return "SpqProofs.Properties.SrcElem"
 
 def src_of(fn):
+    if fn.startswith("reim_fftvec_"):
+        return SRC_FFTVEC
     if fn.startswith("fft64_vmp_"):
         return SRC_VMP
     if fn.startswith("fft64_vec_znx_"):
@@ -73,7 +78,7 @@ ALL_MODULES = ["SpqProofs.Properties.SrcElem", "SpqProofs.Properties.SrcRot", "S
                "SpqProofs.Properties.SrcVec", "SpqProofs.Properties.SrcAutIn", "SpqProofs.Properties.SrcAvx",
                "SpqProofs.Properties.SrcVecAvx", "SpqProofs.Properties.SrcVecNorm",
                "SpqProofs.Properties.SrcQ120", "SpqProofs.Properties.SrcQ120X2",
-               "SpqProofs.Properties.SrcMod", "SpqProofs.Properties.SrcModVmp"]
+               "SpqProofs.Properties.SrcMod", "SpqProofs.Properties.SrcModVmp", "SpqProofs.Properties.SrcFftvec"]
 
 # (id, kind, description, function the edit is made in, old text, new text, occurrence index inside the function)
 CASES = [
@@ -181,6 +186,16 @@ CASES = [
     ("V6", "semantic", "fft64_vmp_apply_dft_ref: scratch of the inner call starts `rows` cells (not `rows * nn`) into tmp_space",
      "fft64_vmp_apply_dft_ref", "(uint8_t*)tmp_space + rows * nn * sizeof(double);",
      "(uint8_t*)tmp_space + rows * sizeof(double);", 0),
+    ("F1", "semantic", "reim_fftvec_mul_ref: real part `-` -> `+`", "reim_fftvec_mul_ref",
+     "a[i] * b[i] - a[i + m] * b[i + m]", "a[i] * b[i] + a[i + m] * b[i + m]", 0),
+    ("F2", "semantic", "reim_fftvec_addmul_ref: `r[i + m] += im` -> `r[i + m] = im`", "reim_fftvec_addmul_ref",
+     "r[i + m] += im;", "r[i + m] = im;", 0),
+    ("F3", "semantic", "reim_fftvec_mul_ref: store of the real part moved before the imaginary part is computed (wrong for r == a / r == b)",
+     "reim_fftvec_mul_ref", "    double im = a[i] * b[i + m] + a[i + m] * b[i];\n    r[i] = re;",
+     "    r[i] = re;\n    double im = a[i] * b[i + m] + a[i + m] * b[i];", 0),
+    ("F4", "semantic", "reim_fftvec_addmul_ref: loop bound `i < m` -> `i + 1 < m`", "reim_fftvec_addmul_ref",
+     "i < m", "i + 1 < m", 0),
+    ("H12", "harmless", "reim_fftvec_mul_ref: `++i` -> `i++`", "reim_fftvec_mul_ref", "++i", "i++", 0),
     ("H11", "harmless", "fft64_vec_znx_dft: `i++` -> `++i`", "fft64_vec_znx_dft", "i++", "++i", 0),
     ("H10", "harmless", "q120_add_bbb_simple: `i += 4` -> `i = i + 4`", "q120_add_bbb_simple", "i += 4", "i = i + 4", 0),
     ("H1", "harmless", "znx_rotate_i64: rename locals `nma` -> `n_minus_a`, `j` -> `jj`", "znx_rotate_i64",
